@@ -275,9 +275,9 @@ Section C13Step.
       destruct HC. constructor; simpl.
       + unfold sub_inc, sub_dec in *. simpl. auto.
       + unfold trig_inc, trig_dec in *. simpl. rewrite ca_trig0.
-        rewrite (ninit_set_init st t (st_log (st_trg st t (trg_set_init (trigs st t))) [OTrigInc 1])); auto.
-        * lia.
-        * intros x. simpl. unfold upd. destruct (Nat.eqb_spec x t); subst; simpl; auto.
+        assert (En : ninit (st_log (st_trg st t (trg_set_init (trigs st t))) [OTrigInc 1]) = S (ninit st)).
+        { apply (ninit_set_init st t); auto. intros x. simpl. unfold upd. destruct (Nat.eqb_spec x t); subst; simpl; auto. }
+        rewrite En. lia.
       + auto.
       + intros t0 Ht0. right. apply ca_cancel0. revert Ht0. unfold upd. destruct (Nat.eqb_spec t0 t); subst; simpl; auto.
     - exfalso. eapply Hold; eauto.
@@ -287,11 +287,84 @@ Section C13Step.
         - destruct (is_reg st t) eqn:E; inversion Ec; subst. apply is_reg_true; auto.
         - apply lookup_reg_In in Ec. destruct (rg_ent _ HR _ _ Ec) as (_ & B & _). rewrite B. exact Ec. }
       eapply (CA_removal st); [exact HR|exact HC|eapply RM_detach_locked; eauto].
-    - destruct HC. constructor; simpl; auto.
-      + unfold sub_inc, sub_dec in *. simpl. lia.
-      + unfold trig_inc, trig_dec in *. simpl. auto.
+    - destruct HC. constructor; simpl; auto; unfold sub_inc, sub_dec, trig_inc, trig_dec in *; simpl; try lia; auto.
     - (* fan-out *)
       eapply CA_quiet; [exact HC|simpl; reflexivity| |simpl; auto|simpl; auto|simpl; auto|flags_tac|flags_tac].
       apply forallb_forall. intros o Ho. apply in_map_iff in Ho. destruct Ho as [y [<- _]]. reflexivity.
   Qed.
 End C13Step.
+
+(* ---- shutdown flag and GLeft ghost (state only) ---- *)
+Record CS (st : state) : Prop := {
+  cs_shut : shut st = true -> reg st = [] /\ byid st = [];
+  cs_left : forall s, In (GLeft s) (log st) -> In s (allsubs st) /\ ~ In s (byid st) }.
+
+Lemma remove_locked_gone : forall st s st' r, RG st -> remove_locked st s = (st', r) -> ~ In s (byid st').
+Proof.
+  intros st s st' r HR Hr. destruct (in_dec Nat.eq_dec s (byid st)) as [Hin|Hin].
+  - rewrite remove_locked_in in Hr by auto. inversion Hr; subst. unfold rm_state.
+    destruct (rem s (t_subs (trigs st (s_tid (subs st s))))); simpl; intro Hx; apply In_rem in Hx; tauto.
+  - rewrite remove_locked_out in Hr by auto. inversion Hr; subst; auto.
+Qed.
+
+Lemma remove_many_gone : forall l st st' r, RG st -> remove_many st l = (st', r) -> forall s, In s l -> ~ In s (byid st').
+Proof.
+  induction l; simpl; intros st st' r HR Hr s Hs; [tauto|].
+  destruct (remove_locked st a) as [st1 r1] eqn:E1. destruct (remove_many st1 l) as [st2 r2] eqn:E2.
+  inversion Hr; subst; clear Hr.
+  assert (HR1 : RG st1) by (eapply RG_remove_locked; eauto).
+  destruct Hs as [<-|Hs]; [|eapply IHl; eauto].
+  pose proof (remove_locked_gone _ _ _ _ HR E1) as Hg.
+  pose proof (RM_remove_many _ _ _ _ HR1 E2) as HM. rewrite (rm_byid _ _ _ HM). intro Hx. apply filter_In in Hx. tauto.
+Qed.
+
+Section C13State.
+  Variable v : variant.
+  Variable flt : sid -> ev -> fres.
+  Variable wresf : sid -> ev -> wres.
+  Variable ev_bad : ev -> bool.
+  Variable hbfail : sid -> bool.
+  Notation exec := (exec v flt wresf ev_bad hbfail).
+
+  Definition noleft (o : obs) : bool := match o with GLeft _ => false | _ => true end.
+
+  Lemma CS_quiet : forall st st1 a, CS st -> log st1 = a ++ log st -> forallb noleft a = true ->
+    byid st1 = byid st -> reg st1 = reg st -> shut st1 = shut st -> allsubs st1 = allsubs st -> CS st1.
+  Proof.
+    intros st st1 a H Hl Hn Hb Hr Hs Ha. destruct H. constructor.
+    - rewrite Hs, Hr, Hb; auto.
+    - intros s. rewrite Hl, Ha, Hb. intros Hi. apply in_app_iff in Hi. destruct Hi as [Hi|Hi]; auto.
+      rewrite forallb_forall in Hn. apply Hn in Hi. discriminate.
+  Qed.
+
+  Lemma CS_removal : forall stp st0 r d, RG stp -> CS stp -> RM stp st0 r -> forallb noleft d = true ->
+    CS (st_log st0 d).
+  Proof.
+    intros stp st0 r d HR HC HM Hd. destruct (rm_frame _ _ _ HM) as (_ & _ & Ha & Hs & _). constructor; simpl.
+    - rewrite Hs. intros E. destruct (cs_shut _ HC E) as [E1 E2]. rewrite (rm_reg _ _ _ HM), (rm_byid _ _ _ HM), E1, E2. auto.
+    - intros s Hi. rewrite Ha, (rm_byid _ _ _ HM).
+      assert (Hi' : In (GLeft s) (log stp)).
+      { apply in_app_iff in Hi. destruct Hi as [Hi|Hi]; [rewrite forallb_forall in Hd; apply Hd in Hi; discriminate|].
+        rewrite (rm_log _ _ _ HM) in Hi. apply in_app_iff in Hi. destruct Hi as [Hi|Hi]; auto.
+        apply in_map_iff in Hi. destruct Hi as [x [Hx _]]. discriminate. }
+      destruct (cs_left _ HC s Hi'). split; auto. intro Hx. apply filter_In in Hx. tauto.
+  Qed.
+
+  Lemma noleft_dec : forall r, forallb noleft (rev (dec_obs r)) = true.
+  Proof. intros. unfold dec_obs. destruct (rr_dec r =? 0); reflexivity. Qed.
+
+  Lemma CS_exec : forall st i x st1 push sp, RG st -> CS st -> exec st i x = Some (st1, push, sp) -> CS st1.
+  Proof.
+    intros st i x st1 push sp HR HC He.
+    exec_cases He;
+      try (eapply CS_quiet;
+           [exact HC
+           |first [ instantiate (1 := []); reflexivity
+                  | simpl; match goal with |- ?a :: ?b :: log _ = _ => instantiate (1 := [a; b]); reflexivity end
+                  | simpl; match goal with |- ?a :: log _ = _ => instantiate (1 := [a]); reflexivity end
+                  | simpl; reflexivity ]
+           |try reflexivity
+           |simpl; auto|simpl; auto|simpl; auto|simpl; auto]; fail).
+    Show.
+  Admitted.
+End C13State.
